@@ -13,7 +13,10 @@ func FibonacciSpherePoints(samples int, offsetRadius float64) []vector3.Float64 
 	phi := math.Pi * (3.0 - math.Sqrt(5.0)) // golden angle in radians
 
 	for i := 0; i < samples; i++ {
-		y := 1 - (float64(i)/float64(samples-1))*2. // y goes from 1 to -1
+		y := 1. // y goes from 1 to -1 (a single sample sits at the top)
+		if samples > 1 {
+			y = 1 - (float64(i)/float64(samples-1))*2.
+		}
 		radius := math.Sqrt(1 - y*y)                // radius at y
 
 		theta := phi * float64(i) // golden angle increment
